@@ -332,6 +332,10 @@ pub fn drive(d: &mut Driver)
 	{
 		jobs.push(json!({"kind": "strings", "lo": lo, "hi": (lo + 80).min(ns)}));
 	}
+	for lo in (0..ns).step_by(80)
+	{
+		jobs.push(json!({"kind": "printed-strings", "lo": lo, "hi": (lo + 80).min(ns)}));
+	}
 	let nc = char_cases().len();
 	for lo in (0..nc).step_by(120)
 	{
@@ -389,6 +393,13 @@ pub fn work(spec: &Value, w: &mut WorkerCtx)
 			let lo = spec["lo"].as_u64().unwrap() as usize;
 			let hi = spec["hi"].as_u64().unwrap() as usize;
 			strings(&all[lo..hi], &spec, w);
+		}
+		"printed-strings" =>
+		{
+			let all = string_cases();
+			let lo = spec["lo"].as_u64().unwrap() as usize;
+			let hi = spec["hi"].as_u64().unwrap() as usize;
+			printed_strings(&all[lo..hi], &spec, w);
 		}
 		"chars" =>
 		{
@@ -705,6 +716,84 @@ fn integers(t: &IntTy, suffixed: bool, spec: &Value, w: &mut WorkerCtx)
 		{
 			let sig = format!("panic@{}", crate::util::site_signature(&site, &message));
 			w.result.violation(&sig, size, &desc, || format!("{ctx}: panic at {site}: {message}"));
+		}
+		CaseOutcome::Crashed { .. } =>
+		{}
+	}
+}
+
+/// Every string literal printed directly: alone, before and after a formatted argument.
+fn printed_strings(cases: &[(String, Vec<u8>, &'static str)], spec: &Value, w: &mut WorkerCtx)
+{
+	const SEP: &str = "\n@@@\n";
+	let forms = ["alone", "before a formatted argument", "after a formatted argument"];
+	let mut text = String::from("fn main() -> u8\n{\n");
+	let mut expected: Vec<Vec<u8>> = Vec::new();
+	for (spell, bytes, _) in cases
+	{
+		text.push_str(&format!("\tprint!({spell});\n\tprint!(\"\\n@@@\\n\");\n"));
+		expected.push(bytes.clone());
+		text.push_str(&format!("\tprint!({spell}, 7u8, \"|\");\n\tprint!(\"\\n@@@\\n\");\n"));
+		let mut e = bytes.clone();
+		e.extend_from_slice(b"7|");
+		expected.push(e);
+		text.push_str(&format!("\tprint!(7u8, {spell}, \"|\");\n\tprint!(\"\\n@@@\\n\");\n"));
+		let mut e = b"7".to_vec();
+		e.extend_from_slice(bytes);
+		e.push(b'|');
+		expected.push(e);
+	}
+	text.push_str("\treturn: 0\n}\n");
+	w.result.states += expected.len() as u64;
+	w.result.transitions += expected.len() as u64;
+	let desc = || json!({"kind": "printed-strings", "lo": spec["lo"], "hi": spec["hi"], "sig_hint": "printed strings"});
+	let d = desc().to_string().into_bytes();
+	let src = text.clone();
+	let outcome = w.run_case(&d, || {
+		let v = alpha::compile_one(&src, alpha::FULL);
+		let exec = match &v
+		{
+			Verdict::Ok { irs, .. } => Some(run_lli(&irs[0], 20_000)),
+			_ => None,
+		};
+		(v, exec)
+	});
+	match outcome
+	{
+		CaseOutcome::Done((Verdict::Ok { .. }, Some(exec))) =>
+		{
+			let pieces: Vec<&str> = exec.stdout.split(SEP).collect();
+			if exec.status != Some(0) || pieces.len() != expected.len() + 1
+			{
+				w.result.violation("execution-failed:printed strings", 1000, &desc, || format!("lli status {:?}, {} pieces for {} prints; {}", exec.status, pieces.len(), expected.len(), exec.stderr_tail));
+				return;
+			}
+			for (i, want) in expected.iter().enumerate()
+			{
+				w.result.validated += 1;
+				let want_text = String::from_utf8_lossy(want).to_string();
+				let (spell, bytes, family) = &cases[i / 3];
+				if pieces[i] != want_text
+				{
+					let what = if bytes.contains(&0) { "with a NUL byte" } else if bytes.contains(&b'%') { "with a percent sign" } else { family };
+					w.result.outcome("printed string:MISMATCH");
+					w.result.violation(&format!("string-literal-printed-differently:{}:{what}", forms[i % 3]), spell.len() as u64, &desc, || format!("print! of the string literal {} ({}) writes {:?}, its bytes are {:?}", spell.escape_default(), forms[i % 3], pieces[i], want_text));
+				}
+				else
+				{
+					w.result.outcome("printed string as written");
+				}
+			}
+		}
+		CaseOutcome::Done((other, _)) =>
+		{
+			let codes = other.codes();
+			w.result.violation(&format!("valid-string-rejected:E{}:printed", codes.first().copied().unwrap_or(0)), 1000, &desc, || format!("a program printing valid string literals is rejected with {codes:?}"));
+		}
+		CaseOutcome::Panicked { site, message } =>
+		{
+			let sig = format!("panic@{}", crate::util::site_signature(&site, &message));
+			w.result.violation(&sig, 1000, &desc, || format!("panic at {site}: {message}"));
 		}
 		CaseOutcome::Crashed { .. } =>
 		{}
